@@ -91,7 +91,12 @@ def sec_147():
             'no start node derives, corpus of minimised past failures. Second round (ids ...-s3): C17 - evaluator values that are',
             'exact zeros / negative / -0.0; C05 - more problems per run and a larger share of constrained problems, an',
             'independent choice next to the constrained ones; C06/C02 - the order of construction varied (selection choices',
-            'declared before the derivation edges), since the library\'s traversals see edges in insertion order.', '']
+            'declared before the derivation edges), since the library\'s traversals see edges in insertion order.',
+            'Third round (C18-s3, C19-s3, C20-s3, one sub-agent each): C19 - workers that swallow the interrupt once or block in',
+            'native code and outlive the deadline by whole seconds (1.5 / 3.2 s quick, up to 13 s thorough): a join that gives up',
+            'after max(limit, 1 s) returned control while the worker was still inside the function; C18-s3 (constraint list',
+            'shared between a graph and its copies) and C20-s3 (nested supplementary choice whose mapping is registered before',
+            'its parent\'s) were caught by the checks as they stood.', '']
     return out
 
 
